@@ -13,9 +13,12 @@ package dag
 // built valid must be admitted.
 
 import (
+	"context"
+	"crypto"
 	"encoding/base64"
 	"encoding/json"
 	"fmt"
+	"sort"
 	"strconv"
 	"strings"
 	"sync"
@@ -72,14 +75,21 @@ var c06Variants = []string{
 
 var c06ConcModes = []string{"same", "siblings", "mixed"}
 
+// late rollbacks: the write transaction of Add fails after (most of) its body ran
+var c06FaultModes = []string{"write-fail", "write-fail", "ctx-cancel", "ctx-cancel", "put:" + xorShelf, "put:" + ibltShelf, "put:" + transactionsShelf,
+	"put:" + clockShelf, "put:" + payloadsShelf, "put:" + metadataShelf, "put:_" + c06NotTx + "_jobs", "put:_" + c06NotPay + "_jobs"}
+
+// kid-signed transactions relative to a DID document history (create / rotate / add key / remove key)
+var c06DIDTxModes = []string{"vouched", "unvouched", "unvouched", "removed-vouched", "removed-unvouched", "future-key-old-version", "latest-key-unvouched"}
+
 func c06GenOffer(t *rapid.T) c06Offer {
 	o := c06Offer{
-		K:   rapid.SampledFrom([]string{"fresh", "fresh", "fresh", "pool", "pool", "resubmit", "resubmit", "mutate", "mutate", "mutate", "mutate", "mutate", "mutate", "craft", "craft", "craft", "craft", "craft", "craft", "concurrent"}).Draw(t, "k"),
+		K:   rapid.SampledFrom([]string{"fresh", "fresh", "fresh", "pool", "pool", "resubmit", "resubmit", "mutate", "mutate", "mutate", "mutate", "mutate", "mutate", "craft", "craft", "craft", "craft", "craft", "craft", "concurrent", "fault", "fault", "did", "did", "didtx", "didtx", "didtx"}).Draw(t, "k"),
 		Sel: rapid.Uint32().Draw(t, "sel"),
 		Pay: rapid.SampledFrom([]string{"ok", "ok", "ok", "ok", "ok", "none", "wrong"}).Draw(t, "pay"),
 	}
 	switch o.K {
-	case "fresh", "mutate", "craft", "concurrent":
+	case "fresh", "mutate", "craft", "concurrent", "fault", "did", "didtx":
 		o.NP = rapid.SampledFrom([]int{1, 1, 1, 2, 2, 3, 5}).Draw(t, "np")
 		o.Key = rapid.SampledFrom([]int{0, 0, 1, 1, 2, 2, 3, 4, 5}).Draw(t, "key")
 		o.Kid = rapid.IntRange(0, 2).Draw(t, "kid") == 0
@@ -97,6 +107,14 @@ func c06GenOffer(t *rapid.T) c06Offer {
 	case "craft":
 		o.V = rapid.SampledFrom(c06Variants).Draw(t, "variant")
 		o.N = rapid.SampledFrom([]int{1, 1, 2, 3, 7}).Draw(t, "n")
+	case "fault":
+		o.V = rapid.SampledFrom(c06FaultModes).Draw(t, "fault")
+	case "did":
+		o.V = rapid.SampledFrom([]string{"rotate", "rotate", "addkey", "removekey"}).Draw(t, "didop")
+		o.Key = rapid.IntRange(0, 1).Draw(t, "did")
+	case "didtx":
+		o.V = rapid.SampledFrom(c06DIDTxModes).Draw(t, "didtx")
+		o.Key = rapid.IntRange(0, 1).Draw(t, "did")
 	case "concurrent":
 		o.V = rapid.SampledFrom(c06ConcModes).Draw(t, "mode")
 		o.N = rapid.IntRange(2, 5).Draw(t, "width")
@@ -141,6 +159,7 @@ type c06Sub struct {
 	expect  bool // built valid and all preconditions hold in the model: must be admitted
 	hostile bool // mutated / crafted (counts for the non-trivial rule when it still parses as a JWS)
 	lenient bool // concurrent group member whose own error is acceptable (wrong payload)
+	ctx     context.Context // nil: the fixture's background context
 }
 
 type c06Base struct {
@@ -174,6 +193,18 @@ func (f *c06Fix) base(o c06Offer, idx, sub int, forceKid, forceJWK bool) c06Base
 		np = 1
 	}
 	seen := map[hash.SHA256Hash]bool{}
+	if f.ovPrevs != nil {
+		np = 0
+		for _, p := range f.ovPrevs {
+			if !seen[p] {
+				seen[p] = true
+				b.prevs = append(b.prevs, p)
+				if c := f.ref.set[p].Clock() + 1; c > b.lc {
+					b.lc = c
+				}
+			}
+		}
+	}
 	for i := 0; i < np; i++ {
 		p := f.order[(int(o.Sel%uint32(n))+i*7919)%n]
 		if !seen[p] {
@@ -186,6 +217,9 @@ func (f *c06Fix) base(o c06Offer, idx, sub int, forceKid, forceJWK bool) c06Base
 	}
 	keys := c06Keys()
 	b.key = keys[((o.Key%len(keys))+len(keys))%len(keys)]
+	if f.ovKey != nil {
+		b.key = f.ovKey
+	}
 	b.alg = b.key.naturalAlg(o.Sel)
 	b.payload = []byte(fmt.Sprintf("c06 payload %d/%d/%d", idx, sub, o.Sel))
 	if o.Shr && n > 0 {
@@ -221,7 +255,10 @@ func (f *c06Fix) base(o c06Offer, idx, sub int, forceKid, forceJWK bool) c06Base
 		"ver":   c06Num(ver),
 	}
 	useKid := (o.Kid || forceKid) && !forceJWK && len(b.prevs) > 0 // a root cannot be signed by kid: nothing to resolve it against
-	if useKid {
+	if f.ovKid != "" {
+		b.kid = f.ovKid // a key of a DID document with a history: the store already knows what it denotes
+		b.hdr["kid"] = b.kid
+	} else if useKid {
 		b.kid = fmt.Sprintf("did:nuts:c06s%do%dx%d#k", b.key.slot, idx, sub)
 		f.res.register(b.kid, b.key.public(), b.prevs[int(o.Sel/3)%len(b.prevs)])
 		b.hdr["kid"] = b.kid
@@ -267,6 +304,9 @@ func (f *c06Fix) validNow(b c06Base, o c06Offer) bool {
 	}
 	if len(b.prevs) == 0 {
 		return !f.hasRoot
+	}
+	if b.kid != "" {
+		return f.res.resolvable(b.kid, b.prevs)
 	}
 	return true
 }
@@ -704,6 +744,281 @@ func (f *c06Fix) buildCrafted(o c06Offer, idx int, pool []vdTx) c06Sub {
 }
 
 // ---------------------------------------------------------------------------------------------------------------------
+// late rollbacks
+
+// head returns the present transaction with the highest clock (a child of it carries a new highest clock).
+func (f *c06Fix) head() (hash.SHA256Hash, bool) {
+	var best hash.SHA256Hash
+	found := false
+	for _, r := range f.order {
+		if !found || f.ref.set[r].Clock() > f.ref.set[best].Clock() {
+			best, found = r, true
+		}
+	}
+	return best, found
+}
+
+func (f *c06Fix) runFault(step int, o c06Offer) {
+	x := f.x
+	if h0, ok := f.head(); ok && o.Sel%4 != 0 {
+		f.ovPrevs = []hash.SHA256Hash{h0}
+		for i := 1; i < o.NP; i++ {
+			f.ovPrevs = append(f.ovPrevs, f.order[(int(o.Sel)+i*7919)%len(f.order)])
+		}
+		x.Class("fault:new-highest-clock")
+	}
+	if o.Pay == "wrong" {
+		o.Pay = "ok"
+	}
+	b := f.base(o, step, 0, false, false)
+	f.ovPrevs = nil
+	s := c06Sub{data: c06Seal(b.hdr, b.alg, b.key, b.phashHex()), payload: f.payloadFor(o, b), label: "fault:" + o.V}
+	valid := f.validNow(b, o)
+	var cancel context.CancelFunc
+	switch {
+	case o.V == "write-fail":
+		f.kv.armFailures(1)
+	case o.V == "ctx-cancel":
+		// the caller goes away while the write transaction is open: stoabs refuses to commit
+		s.ctx, cancel = context.WithCancel(f.ctx)
+		f.kv.mu.Lock()
+		f.kv.onWriteBody = func(int) { cancel() }
+		f.kv.mu.Unlock()
+	case strings.HasPrefix(o.V, "put:"):
+		f.kv.armPutFailure(strings.TrimPrefix(o.V, "put:"), 1)
+	}
+	f.process(step, s)
+	f.kv.armFailures(0)
+	f.kv.mu.Lock()
+	f.kv.onWriteBody = nil
+	f.kv.failPuts = nil
+	f.kv.mu.Unlock()
+	if cancel != nil {
+		cancel()
+	}
+	if len(x.Violations()) > 0 {
+		return
+	}
+	// the fault is gone: the same transaction must now be accepted (or be a no-op if the fault never hit its write)
+	s.ctx, s.label, s.expect = nil, "fault:retry-without-fault", valid
+	f.process(step, s)
+}
+
+// ---------------------------------------------------------------------------------------------------------------------
+// DID document histories
+
+type c06DIDState struct {
+	did     string
+	nkeys   int
+	cur     map[string]*c06Key // keys the latest version lists
+	removed map[string]*c06Key // keys a former version listed and the latest does not
+	vers    []c06DIDVer
+}
+
+type c06DIDVer struct {
+	src  hash.SHA256Hash
+	kids map[string]bool
+}
+
+func (d *c06DIDState) isSource(r hash.SHA256Hash) bool {
+	for _, v := range d.vers {
+		if v.src.Equals(r) {
+			return true
+		}
+	}
+	return false
+}
+
+// lastListing returns the source transaction of the newest version that lists kid.
+func (d *c06DIDState) lastListing(kid string) (hash.SHA256Hash, bool) {
+	for i := len(d.vers) - 1; i >= 0; i-- {
+		if d.vers[i].kids[kid] {
+			return d.vers[i].src, true
+		}
+	}
+	return hash.SHA256Hash{}, false
+}
+
+func c06SortedKids(m map[string]*c06Key) []string {
+	var l []string
+	for k := range m {
+		l = append(l, k)
+	}
+	sort.Strings(l)
+	return l
+}
+
+// extras picks up to n present transactions that did not produce any version of d's document.
+func (f *c06Fix) extras(d *c06DIDState, sel uint32, n int) []hash.SHA256Hash {
+	var out []hash.SHA256Hash
+	for k := 0; k < len(f.order) && len(out) < n; k++ {
+		r := f.order[(int(sel%uint32(len(f.order)))+k*7919)%len(f.order)]
+		dup := false
+		for _, o := range out {
+			dup = dup || o.Equals(r)
+		}
+		if !dup && !d.isSource(r) {
+			out = append(out, r)
+		}
+	}
+	return out
+}
+
+func (f *c06Fix) publish(d *c06DIDState, keys map[string]*c06Key, ref hash.SHA256Hash) {
+	pubs := map[string]crypto.PublicKey{}
+	ver := c06DIDVer{src: ref, kids: map[string]bool{}}
+	for k, key := range keys {
+		pubs[k] = key.public()
+		ver.kids[k] = true
+	}
+	f.res.addVersion(d.did, pubs, ref)
+	for k, key := range d.cur {
+		if _, still := keys[k]; !still {
+			d.removed[k] = key
+		}
+	}
+	d.cur = keys
+	d.vers = append(d.vers, ver)
+}
+
+// runDID publishes a new version of a DID document through a transaction (create: signed with the embedded new key;
+// later versions: signed by kid with a key of the latest version, whose source transaction is among the prevs).
+func (f *c06Fix) runDID(step int, o c06Offer) {
+	i := ((o.Key % 2) + 2) % 2
+	d := f.dids[i]
+	o.Pay, o.Pal, o.Shr = "ok", false, false
+	keys := c06Keys()
+	if d == nil {
+		d = &c06DIDState{did: fmt.Sprintf("did:nuts:c06doc%d", i), cur: map[string]*c06Key{}, removed: map[string]*c06Key{}}
+		k := keys[(i+d.nkeys)%3]
+		kid := fmt.Sprintf("%s#key-%d", d.did, d.nkeys)
+		f.ovKey = k
+		o.Kid = false
+		b := f.base(o, step, 0, false, true)
+		f.ovKey = nil
+		s := c06Sub{data: c06Seal(b.hdr, b.alg, b.key, b.phashHex()), payload: b.payload, label: "did:create", expect: f.validNow(b, o)}
+		f.process(step, s)
+		if _, in := f.ref.set[hash.SHA256Sum(s.data)]; !in || len(f.x.Violations()) > 0 {
+			return
+		}
+		d.nkeys++
+		f.dids[i] = d
+		f.publish(d, map[string]*c06Key{kid: k}, hash.SHA256Sum(s.data))
+		if o.K == "didtx" {
+			return // runDIDTx continues with the document it asked for
+		}
+		// the document exists now: go on with the requested new version in the same offer
+	}
+	signer := c06SortedKids(d.cur)[int(o.Sel)%len(d.cur)]
+	vouch, _ := d.lastListing(signer)
+	f.ovPrevs = append([]hash.SHA256Hash{vouch}, f.extras(d, o.Sel, o.NP-1)...)
+	f.ovKid, f.ovKey = signer, d.cur[signer]
+	b := f.base(o, step, 0, false, false)
+	f.ovPrevs, f.ovKid, f.ovKey = nil, "", nil
+	s := c06Sub{data: c06Seal(b.hdr, b.alg, b.key, b.phashHex()), payload: b.payload, label: "did:" + o.V, expect: f.validNow(b, o)}
+	f.process(step, s)
+	if _, in := f.ref.set[hash.SHA256Sum(s.data)]; !in {
+		return
+	}
+	next := map[string]*c06Key{}
+	for k, key := range d.cur {
+		next[k] = key
+	}
+	newKid := fmt.Sprintf("%s#key-%d", d.did, d.nkeys)
+	switch {
+	case o.V == "removekey" && len(next) > 1:
+		delete(next, c06SortedKids(next)[int(o.Sel/3)%len(next)])
+	case o.V == "addkey":
+		next[newKid] = keys[(i+d.nkeys)%3]
+		d.nkeys++
+	default: // rotate
+		next = map[string]*c06Key{newKid: keys[(i+d.nkeys)%3]}
+		d.nkeys++
+	}
+	f.publish(d, next, hash.SHA256Sum(s.data))
+}
+
+// runDIDTx offers an ordinary kid-signed transaction whose prevs do / do not vouch for the key.
+func (f *c06Fix) runDIDTx(step int, o c06Offer) {
+	d := f.dids[((o.Key%2)+2)%2]
+	if d == nil {
+		f.runDID(step, o)
+		if d = f.dids[((o.Key%2)+2)%2]; d == nil || len(f.x.Violations()) > 0 {
+			return
+		}
+		if strings.HasPrefix(o.V, "removed-") || o.V == "future-key-old-version" {
+			// these need a second version of the document
+			oo := o
+			oo.K, oo.V = "did", []string{"rotate", "removekey", "addkey"}[o.Sel%3]
+			f.runDID(step, oo)
+			if len(f.x.Violations()) > 0 {
+				return
+			}
+		}
+	}
+	pick := func(m map[string]*c06Key) (string, *c06Key, bool) {
+		if len(m) == 0 {
+			return "", nil, false
+		}
+		k := c06SortedKids(m)[int(o.Sel/2)%len(m)]
+		return k, m[k], true
+	}
+	mode := o.V
+	kid, key, ok := pick(d.cur)
+	if strings.HasPrefix(mode, "removed-") {
+		if kid, key, ok = pick(d.removed); !ok {
+			mode, kid, key, ok = "unvouched", "", nil, false
+			kid, key, ok = pick(d.cur)
+		}
+	}
+	if !ok {
+		return
+	}
+	np := o.NP
+	if np < 1 {
+		np = 1
+	}
+	var prevs []hash.SHA256Hash
+	switch mode {
+	case "vouched", "removed-vouched":
+		v, _ := d.lastListing(kid)
+		prevs = append([]hash.SHA256Hash{v}, f.extras(d, o.Sel, np-1)...)
+	case "future-key-old-version":
+		// the key of the latest version, referenced to an older version that does not list it yet
+		for _, v := range d.vers {
+			if !v.kids[kid] {
+				prevs = []hash.SHA256Hash{v.src}
+				break
+			}
+		}
+		if prevs == nil {
+			mode = "unvouched"
+			prevs = f.extras(d, o.Sel, np)
+		}
+	case "removed-unvouched":
+		// a removed key, referenced to the version that removed it (or to nothing of the document at all)
+		if o.Sel%2 == 0 {
+			prevs = []hash.SHA256Hash{d.vers[len(d.vers)-1].src}
+		} else {
+			prevs = f.extras(d, o.Sel, np)
+		}
+	default: // unvouched, latest-key-unvouched: no prev produced any version of the document
+		prevs = f.extras(d, o.Sel, np)
+	}
+	if len(prevs) == 0 {
+		v, _ := d.lastListing(kid)
+		prevs, mode = []hash.SHA256Hash{v}, "vouched"
+	}
+	f.ovPrevs, f.ovKid, f.ovKey = prevs, kid, key
+	b := f.base(o, step, 0, false, false)
+	f.ovPrevs, f.ovKid, f.ovKey = nil, "", nil
+	s := c06Sub{data: c06Seal(b.hdr, b.alg, b.key, b.phashHex()), payload: f.payloadFor(o, b), label: "didtx:" + mode}
+	s.expect = f.validNow(b, o)
+	s.hostile = !f.res.resolvable(kid, b.prevs)
+	f.process(step, s)
+}
+
+// ---------------------------------------------------------------------------------------------------------------------
 // running
 
 // offer hands one submission to the node the way the network layer does.
@@ -712,7 +1027,11 @@ func (f *c06Fix) submit(s c06Sub) (tx Transaction, parseErr, addErr error) {
 	if parseErr != nil {
 		return nil, parseErr, nil
 	}
-	return tx, nil, f.st.Add(f.ctx, tx, s.payload)
+	ctx := s.ctx
+	if ctx == nil {
+		ctx = f.ctx
+	}
+	return tx, nil, f.st.Add(ctx, tx, s.payload)
 }
 
 // process runs one submission and applies all oracles.
@@ -905,6 +1224,12 @@ func c06Run(x *h.Ctx, c c06Case) {
 		return
 	}
 	shapeRes := vdNewResolver()
+	if len(c.Shape.Segs) > 0 && c.Shape.Segs[0].Kind%3 == 1 {
+		// the real key resolver resolves a kid against the referenced transactions: a root cannot be signed by kid
+		segs := append([]dagshape.Seg(nil), c.Shape.Segs...)
+		segs[0].Kind = 0
+		c.Shape.Segs = segs
+	}
 	txs := vdBuild(c.Shape, shapeRes)
 	if len(txs) > 400 {
 		return
@@ -1034,6 +1359,12 @@ func c06Run(x *h.Ctx, c c06Case) {
 			f.process(step, f.buildCrafted(o, step, pool))
 		case "concurrent":
 			f.runConcurrent(step, o, step)
+		case "fault":
+			f.runFault(step, o)
+		case "did":
+			f.runDID(step, o)
+		case "didtx":
+			f.runDIDTx(step, o)
 		}
 		if len(x.Violations()) > 0 {
 			return
